@@ -28,7 +28,8 @@ def gen_case(rng, tier):
     gran = 'instr' if rng.random() < 0.25 else 'line'      # 'instr': sys.monitoring INSTRUCTION events (DESIGN.md 10)
     est = 500 * n_thr * (9 if gran == 'instr' else 1)
     return {'threads': calls, 'n_apps': n_apps, 'default_at': rng.choice([None, None, 0, 1]),
-            'construct_order': rng.choice(['fwd', 'rev']), 'plan': gen_plan(rng, est, n_thr), 'gran': gran}
+            'construct_order': rng.choice(['fwd', 'rev']), 'plan': gen_plan(rng, est, n_thr), 'gran': gran,
+            'own_cfg': rng.random() < 0.6}
 
 
 def _uses_app(call, app):
@@ -111,5 +112,7 @@ def shrink_candidates(case):
             yield c
     if case.get('default_at') is not None:
         yield shrink.with_key(case, 'default_at', None)
+    if case.get('own_cfg'):
+        yield shrink.with_key(case, 'own_cfg', False)
     if case.get('gran') in ('opcode', 'instr'):
         yield shrink.with_key(case, 'gran', 'line')
